@@ -102,6 +102,7 @@ def run_qr_direct(case):
     """decompose_theta_qr_based on a two-site wave function of a small entangled MPS (as tests/test_truncation.py)"""
     import tenpy.linalg.np_conserved as npc
     from tenpy.linalg import truncation
+    from tenpy.tools.params import asConfig
     warnings.simplefilter('ignore')
     M = _model(case)
     psi, rng = _start_state(M, case)
@@ -109,30 +110,67 @@ def run_qr_direct(case):
     S = psi.get_SL(i)
     old_T_L = psi.get_B(i, 'B').ireplace_label('p', 'p0')
     old_T_R = psi.get_B(i + 1, 'B').ireplace_label('p', 'p1')
-    theta = npc.tensordot(old_T_L.scale_axis(S, axis='vL'), old_T_R, ['vR', 'vL'])
-    if case.get('apply_U', True):
-        Ub = M.H_bond[i + 1]
-        H2 = Ub.combine_legs([('p0', 'p1'), ('p0*', 'p1*')], qconj=[+1, -1])
-        U = npc.expm((-1.j if case.get('real_time', True) else -1.) * case.get('dt', 0.3) * H2).split_legs()
-        theta = npc.tensordot(U, theta, axes=(['p0*', 'p1*'], ['p0', 'p1']))
-        theta.itranspose(['vL', 'p0', 'p1', 'vR'])
-    if case.get('scale', 1.0) != 1.0:
-        theta = theta * case['scale']          # unnormalised input: the error is relative
-    theta = theta.combine_legs([['vL', 'p0'], ['p1', 'vR']], qconj=[+1, -1])
     tp = {k: v for k, v in case['trunc'].items() if v != 'absent'}
+
+    def build_theta(T_L, T_R):
+        theta = npc.tensordot(T_L.scale_axis(S, axis='vL'), T_R, ['vR', 'vL'])
+        if case.get('apply_U', True):
+            Ub = M.H_bond[i + 1]
+            H2 = Ub.combine_legs([('p0', 'p1'), ('p0*', 'p1*')], qconj=[+1, -1])
+            U = npc.expm((-1.j if case.get('real_time', True) else -1.) * case.get('dt', 0.3) * H2).split_legs()
+            theta = npc.tensordot(U, theta, axes=(['p0*', 'p1*'], ['p0', 'p1']))
+            theta.itranspose(['vL', 'p0', 'p1', 'vR'])
+        if case.get('scale', 1.0) != 1.0:
+            theta = theta * case['scale']          # unnormalised input: the error is relative
+        return theta.combine_legs([['vL', 'p0'], ['p1', 'vR']], qconj=[+1, -1])
+
+    def call(T_L, T_R, leg, theta):
+        return truncation.decompose_theta_qr_based(
+            old_qtotal_L=T_L.qtotal, old_qtotal_R=T_R.qtotal, old_bond_leg=leg,
+            theta=theta, move_right=case['move_right'], expand=case['expand'],
+            min_block_increase=case['min_block_increase'], use_eig_based_svd=case['eig'],
+            trunc_params=(asConfig(dict(tp), 'trunc_params') if case.get('config') else dict(tp)),
+            compute_err=case['compute_err'], return_both_T=case['both'])
+
+    # equivalent presentations of the same input (documented: old_qtotal_L/R = qtotal of the old tensors, old_bond_leg =
+    # the leg between them): (a) total charges of the old tensors gauged away from zero through the common bond,
+    # (b) the old bond leg not blocked by charge (one block per index)
+    T_L, T_R = old_T_L, old_T_R
+    variant = {}
+    if case.get('qshift') and T_L.chinfo.qnumber > 0:
+        d = np.array([case['qshift']] * T_L.chinfo.qnumber)
+        T_L = old_T_L.gauge_total_charge('vR', old_T_L.chinfo.make_valid(old_T_L.qtotal + d))     # (returns a copy)
+        T_R = old_T_R.gauge_total_charge('vL', old_T_R.chinfo.make_valid(old_T_R.qtotal - d))
+        T_L.get_leg('vR').test_contractible(T_R.get_leg('vL'))
+        variant['qtotal_L'] = [int(v) for v in T_L.qtotal]
+        variant['qtotal_R'] = [int(v) for v in T_R.qtotal]
+    leg = T_R.get_leg('vL')
+    if case.get('unblocked_leg'):
+        from tenpy.linalg.charges import LegCharge
+        leg = LegCharge.from_qflat(leg.chinfo, leg.to_qflat(), leg.qconj)       # one block per index: not blocked
+        variant['leg_blocked'] = bool(leg.is_blocked())
+    theta = build_theta(T_L, T_R)
+    theta_dense = theta.to_ndarray()
     y0 = _Y0Spy()
     try:
         with y0:
-            T_Lc, S_qr, T_Rc, form, err, ren = truncation.decompose_theta_qr_based(
-                old_qtotal_L=old_T_L.qtotal, old_qtotal_R=old_T_R.qtotal, old_bond_leg=old_T_R.get_leg('vL'),
-                theta=theta, move_right=case['move_right'], expand=case['expand'],
-                min_block_increase=case['min_block_increase'], use_eig_based_svd=case['eig'],
-                trunc_params=dict(tp), compute_err=case['compute_err'], return_both_T=case['both'])
+            T_Lc, S_qr, T_Rc, form, err, ren = call(T_L, T_R, leg, theta)
     except Exception as e:
         import traceback
-        return {'error': type(e).__name__ + ': ' + str(e)[:150], 'tb': traceback.format_exc()[-600:], 'empty_Y0': y0.empty}
+        return {'error': type(e).__name__ + ': ' + str(e)[:150], 'tb': traceback.format_exc()[-600:], 'empty_Y0': y0.empty,
+                'variant': variant}
     out = dense_report(theta, T_Lc, S_qr, T_Rc, form, err, ren, tp.get('chi_max'))
     out['chi_old'] = int(old_T_R.get_leg('vL').ind_len)
+    out['theta_unchanged'] = bool(np.array_equal(theta.to_ndarray(), theta_dense))
+    if variant:
+        out['variant'] = variant
+        # the plain presentation of the same two-site wave function must give the same decomposition
+        try:
+            base = call(old_T_L, old_T_R, old_T_R.get_leg('vL'), build_theta(old_T_L, old_T_R))
+            out['base'] = {'S': [float(x) for x in base[1]], 'eps': float(base[4].eps), 'renorm': float(base[5])}
+            out['S'] = [float(x) for x in S_qr]
+        except Exception as e:
+            out['base'] = {'error': type(e).__name__ + ': ' + str(e)[:100]}
     return out
 
 
